@@ -104,17 +104,43 @@ func runC14(c C14Case) (o c14Out) {
 			return fmt.Errorf("after Close: Written() = %d, model has %d bits", w, len(model))
 		}
 		if c.PostClose {
-			if !mustPanic(func() { obs.WriteBit(1) }) {
-				return fmt.Errorf("WriteBit on a closed stream was not refused")
+			// every operation on the closed stream is refused, and a refused operation writes nothing:
+			// the bit counter and the bytes at the sink stay where Close left them, however often the caller retries
+			sinkLen := len(sink.Data)
+			refused := func(name string, f func()) error {
+				if !mustPanic(f) {
+					return fmt.Errorf("%s on a closed stream was not refused", name)
+				}
+				if w := obs.Written(); w != uint64(len(model)) {
+					return fmt.Errorf("after a refused %s on the closed stream Written() = %d, %d bits were written", name, w, len(model))
+				}
+				if len(sink.Data) != sinkLen {
+					return fmt.Errorf("a refused %s on the closed stream sent bytes to the sink", name)
+				}
+				return nil
 			}
-			if !mustPanic(func() { obs.WriteBits(5, 7) }) {
-				return fmt.Errorf("WriteBits on a closed stream was not refused")
-			}
-			if !mustPanic(func() { obs.WriteArray([]byte{1, 2, 3}, 20) }) {
-				return fmt.Errorf("WriteArray on a closed stream was not refused")
+			for round := 0; round < 2; round++ {
+				order := [][3]int{{0, 1, 2}, {1, 0, 2}, {2, 1, 0}, {1, 2, 0}}[(len(model)+round)%4]
+				for _, k := range order {
+					var e error
+					switch k {
+					case 0:
+						e = refused("WriteBit", func() { obs.WriteBit(1) })
+					case 1:
+						e = refused("WriteBits", func() { obs.WriteBits(5, uint(1+len(model)%64)) })
+					case 2:
+						e = refused("WriteArray", func() { obs.WriteArray([]byte{1, 2, 3, 4, 5, 6, 7, 8, 9}, uint(20+len(model)%50)) })
+					}
+					if e != nil {
+						return e
+					}
+				}
 			}
 			if e := obs.Close(); e != nil {
 				return fmt.Errorf("second Close: %v", e)
+			}
+			if w := obs.Written(); w != uint64(len(model)) {
+				return fmt.Errorf("after the second Close Written() = %d, %d bits were written", w, len(model))
 			}
 		}
 		return nil
